@@ -20,7 +20,7 @@ func init() {
 			"D6 connection-pool tokens are paired: after a successful tryTake every path of boundedPool.Get returns a wrapped connection or frees the token; D7 the cache snapshot, the closed WAL segment list and the segment roll happen in one critical section that excludes writers (shared with C01). " +
 			"D9 guarded-by table (candidates inferred statistically with `verifcheck -guarded`, each row confirmed by reading every access): the listed fields are accessed in their struct's methods only with the struct's mutex held (write-held for writes), directly or because every chain of callers holds it; this found three genuine races (580bb20, ff23628, 74fdcd6). " +
 			"D10 a snapshot's points leave the cache only after their file is installed; a hinted-handoff segment that stops being the tail has flushed its buffered blocks (shared with C01/C09, C04). D3 also: every field lookup tested for nil on the shard write path compares the field's type. " +
-			"D11 the batch shared by the owner goroutines is passed on only as a fresh copy to callees that store into it; D12 WaitGroup.Wait is never called while holding a mutex that a goroutine of that group acquires; D13 create-if-absent functions re-check under the write lock. " +
+			"D11 the batch shared by the owner goroutines is passed on only as a fresh copy to callees that store into it; D12 WaitGroup.Wait is never called while holding a mutex that a goroutine of that group acquires; D13 create-if-absent functions re-check under the write lock; D14 a receive from a pointer channel that a sibling method closes tests the pointer (or the ok flag) first. " +
 			"NOT decided: freedom from data races under every schedule (no sound alias analysis is available: locks are identified by access path and class), visibility of acknowledged writes to reads, liveness.",
 		RuleText:    "obligation = (rule, function, lock key | site); exact per-path lock balance exploration (no merging); lock-class graph with callee summaries; outcome/def facts for check-then-act; per-event held-lock sets for captured-variable writes",
 		Assumptions: append([]string{"locks are identified by the text of their receiver expression within a function and by (struct type, field) across functions; two instances of one class are not distinguished"}, commonAssumptions...),
